@@ -775,7 +775,12 @@ Definition parse_directive_definition (t : tree) : outcome sdef :=
     let '(a, rest2) := next_if_rule R_arguments_definition rest1 in
     bindo (match a with Some a => mapo parse_input_value_definition (t_kids a) | None => Ok [] end) (fun args =>
     let '(rp, rest3) := next_if_rule R_repeatable rest2 in
-    let repeatable := match rp with Some _ => true | None => false end in
+    (* the rule matches the empty string as well, so the pair is always there:
+       the flag is whether it matched the keyword *)
+    let repeatable := match rp with
+                      | Some r => negb (match t_text r with [] => true | _ => false end)
+                      | None => false
+                      end in
     match rest3 with
     | [locs] =>
       bindo (expect_rule R_directive_locations locs) (fun locs =>
